@@ -4,6 +4,8 @@ package k8s
 
 import (
 	conf_v1 "github.com/nginx/kubernetes-ingress/pkg/apis/configuration/v1"
+	"github.com/nginxinc/nginx-service-mesh/pkg/spiffe"
+	"github.com/spiffe/go-spiffe/v2/workloadapi"
 	"k8s.io/client-go/tools/leaderelection"
 
 	"github.com/nginx/kubernetes-ingress/internal/k8s/secrets"
@@ -28,3 +30,42 @@ func VerifSecretStore(lbc *LoadBalancerController) secrets.SecretStore { return 
 
 // VerifQueueLen is the length of the (thread-safe) work queue.
 func VerifQueueLen(lbc *LoadBalancerController) int { return lbc.syncQueue.Len() }
+
+// --- SPIFFE scenario: the controller as it is configured with a SPIRE agent, without the agent.
+
+// VerifEnableSpiffe makes lbc.spiffeCertFetcher non-nil, which is all the control loop looks at
+// (sync takes syncLock only then).  The fetcher is never started; the harness plays its CertCh.
+func VerifEnableSpiffe(lbc *LoadBalancerController) { lbc.spiffeCertFetcher = &spiffe.X509CertFetcher{} }
+
+// VerifSync runs the production lbc.sync on the task the queue would build for obj
+// (what taskQueue.worker does after Get).
+func VerifSync(lbc *LoadBalancerController, obj interface{}) error {
+	key, err := keyFunc(obj)
+	if err != nil {
+		return err
+	}
+	t, err := newTask(key, obj)
+	if err != nil {
+		return err
+	}
+	lbc.sync(t)
+	return nil
+}
+
+// VerifDrainQueue removes what is waiting in the work queue (the worker goroutine is not running in this
+// scenario; the harness calls VerifSync for the items itself).
+func VerifDrainQueue(lbc *LoadBalancerController) {
+	for lbc.syncQueue.queue.Len() > 0 {
+		item, shutdown := lbc.syncQueue.queue.Get()
+		if shutdown {
+			return
+		}
+		lbc.syncQueue.queue.Done(item)
+	}
+}
+
+// VerifSyncSVIDRotation is the production rotation callback (what the goroutine started in Run calls for
+// every certificate the fetcher delivers).
+func VerifSyncSVIDRotation(lbc *LoadBalancerController, c *workloadapi.X509Context) {
+	lbc.syncSVIDRotation(c)
+}
